@@ -924,6 +924,8 @@ def run(tier, seed, replay=None):
     chk.coverage["entries_checked_by_oracle_in_real_runs"] = checked
     chk.assumptions += [
         "no component of a path below cond-out is itself a symbolic link to elsewhere (then '..' in a link text is the lexical parent; os.path.realpath is used on the real runs)",
-        "existence of the place an already present link leads to does not change while the operation runs (file-system observations are a fixed oracle in the model)",
+        "the contents of the dependencies' directories do not change while the operation runs (file-system observations are a fixed oracle in the model)",
+        "a link is 'one Conductor made' when its text leads, lexically, to `<dependency name>.task[.<version>]` strictly inside cond-out (the rule of the repaired code and of "
+        "Model/Combine.v; a hand-made link of exactly that form is indistinguishable from Conductor's and is replaced)",
     ]
     return chk.finish()
